@@ -14,6 +14,8 @@ MUTANTS = [
     ('vector potential geometry of other half', [(M + 'vector_potential', "dv  = self.pulses.matrix_dvecs (ds) [1]", "dv  = self.pulses.matrix_dvecs (-ds) [1]")], ['potential-half', 'one-selector']),
     ('scalar potential passes wrong scale', [(M + 'scalar_potential', "(v2, vv, k, ds2, px [co1], fvs = 1, exact = xct [co1])", "(v2, vv, k, ds1, px [co1], fvs = 1, exact = xct [co1])")], ['potential-half', 'one-selector']),
     ('negative half potential with positive scale', [(M + 'compute_impedance_matrix', "vp [c]     = self.vector_potential (k, c, -0.5)", "vp [c]     = self.vector_potential (k, c, 0.5)")], ['coherent-product', 'complete-term', 'both-halves']),
+    ('end-2 neighbour segment chosen by the end-1 sign', [('mininec.Geobj.compute_connections', "            if sgn [1] < 0:\n                oseg = other.segments [-1]", "            if sgn [0] < 0:\n                oseg = other.segments [-1]")], ['junction-geometry']),
+    ('outer point of end 2 ignores the direction', [('mininec.Geobj.compute_connections', "oinc = oseg.dirvec * oseg.seg_len * sgn [1]", "oinc = oseg.dirvec * oseg.seg_len")], ['junction-geometry']),
 ]
 REFACTORS = [
     ('rename locals', [(M + 'compute_impedance_matrix', "        di1          = dv [..., 0, :]\n        di2          = dv [..., 1, :]", "        dminus       = dv [..., 0, :]\n        dplus        = dv [..., 1, :]"),
